@@ -375,9 +375,84 @@ macro "brute_tail" D:ident hvars:ident allS:ident valid:ident value:ident spin:i
       intro v _
       obtain ⟨⟨bv, bx⟩, as⟩ := a
       simp only [toSt, ofSt, update, sdAppend_eq]
-      cases $allS:ident <;> cases bv <;> simp [leBest, ltBest] <;> split_ifs <;> simp_all
+      cases $allS:ident <;> cases bv <;> simp [leBest, ltBest] <;> split_ifs <;> simp_all <;>
+        first
+        | done
+        | (exfalso; exact lt_asymm ‹_ < _› ‹_ < _›)
+        | (exfalso; exact absurd (le_of_lt ‹_ < _›) (not_le.mpr ‹_ < _›))
+        | grind
     · have hval' : $valid (mkAssign vars t) = false := by simpa using hval
       simp [hval']))
+
+/-! ### the shape "labels computed once before the loop": `labels = [mapping[i] for i in range(N)]`, then
+`x = dict(zip(labels, test_sol))` in every iteration (no per-iteration lookups) -/
+
+theorem dictOfZip_eq_mkAssign (vars : List Var) (t : List Rat) : pyUDictOfPairs (List.zip vars t) = mkAssign vars t := by
+  unfold pyUDictOfPairs mkAssign
+  congr
+  funext x p
+  exact pyDictPut_eq_aput _ _ _
+
+theorem labels_mapM (mp : List (Nat × Var)) (n : Nat) :
+    List.mapM (fun (i : Nat) => (pyDictGetItem mp i >>= fun (m : Var) => (Except.ok m : Except Err Var)))
+      (pyRangeNat (Nat.cast n : Int)) = (List.range n).mapM (rmLookup mp) := by
+  simp only [bind_ok_self, pyRangeNat, Int.toNat_natCast]
+  congr
+  funext i
+  exact pyDictGetItem_eq_rmLookup mp i
+
+theorem main_loop_labels (value : Assign → Except Err Rat) (allS : Bool) (valid : Assign → Bool) (vars : List Var)
+    (L : List (List Rat))
+    (body : (Option Rat × Assign) × AllSols → List Rat → Except Err ((Option Rat × Assign) × AllSols))
+    (hbody : ∀ a t, body a t = stepM value allS valid vars a t) (a : (Option Rat × Assign) × AllSols) :
+    pyForM L a body = (loopM value allS valid (L.map (mkAssign vars)) (toSt a)).map ofSt := by
+  rw [← loop_stepM]
+  exact pyForM_congrU _ _ _ (fun s t _ => hbody s t) a
+
+/-- as `brute_tail`, for the shape with the labels computed once before the loop -/
+macro "brute_tail_labels" D:ident hvars:ident allS:ident valid:ident value:ident spin:ident : tactic => `(tactic| (
+  simp only [labels_mapM]
+  rw [$hvars:ident]
+  cases hv : Brute.Model.vars $D _ with
+  | error e => rfl
+  | ok vars =>
+    have hlen := mapM_ok_length _ _ _ ($hvars:ident ▸ hv)
+    simp only [List.length_range] at hlen
+    subst hlen
+    simp only [ok_bind', enumerate, domOf, pyProduct_eq_product]
+    rw [main_loop_labels (fun x => $value x (Brute.Model.terms $D)) $allS $valid vars]
+    · cases hl : loopM (fun x => $value x (Brute.Model.terms $D)) $allS $valid
+          (List.map (mkAssign vars) (product (if $spin = true then [1, -1] else [0, 1]) vars.length)) St.init with
+      | error e =>
+        first
+        | (simp only [toSt, St.init] at hl ⊢; rw [hl]; rfl)
+        | (simp_all [toSt, St.init, Except.map, bind, Except.bind]; done)
+      | ok st =>
+        have hl' : loopM (fun x => $value x (Brute.Model.terms $D)) $allS $valid
+            (List.map (mkAssign vars) (product (if $spin = true then [1, -1] else [0, 1]) vars.length))
+            (toSt ((none, []), [(none, [[]])])) = .ok st := hl
+        rw [hl']
+        simp only [Except.map, ok_bind', ofSt, pyDictGetItem_eq_lookupA]
+        cases $allS:ident <;> first
+          | rfl
+          | (cases lookupA st.allSols st.bestV <;> rfl)
+          | (simp <;> cases lookupA st.allSols st.bestV <;> rfl)
+    · intro a t
+      simp only [dictOfZip_eq_mkAssign, stepM]
+      by_cases hval : $valid (mkAssign vars t) = true
+      · simp only [hval, if_true, Bool.true_eq_false, if_false, reduceCtorEq]
+        apply bind_congr'
+        intro v _
+        obtain ⟨⟨bv, bx⟩, as⟩ := a
+        simp only [toSt, ofSt, update, sdAppend_eq]
+        cases $allS:ident <;> cases bv <;> simp [leBest, ltBest] <;> split_ifs <;> simp_all <;>
+          first
+          | done
+          | (exfalso; exact lt_asymm ‹_ < _› ‹_ < _›)
+          | (exfalso; exact absurd (le_of_lt ‹_ < _›) (not_le.mpr ‹_ < _›))
+          | grind
+      · have hval' : $valid (mkAssign vars t) = false := by simpa using hval
+        simp [hval']))
 
 theorem solve_bruteforce_whole_eq_model (D : Brute.Model) (allS : Bool) (valid : Assign → Bool) (spin : Bool)
     (value : Assign → Poly → Except Err Rat) (ord : PySetOrder) :
@@ -401,14 +476,18 @@ theorem solve_bruteforce_whole_eq_model (D : Brute.Model) (allS : Bool) (valid :
         rw [mapM_enumerate]; simp [Model.vars, hb]
       generalize (ord.iter (keyLabels D'.terms)).length = N at hvars ⊢
       generalize pyUEnumerate (ord.iter (keyLabels D'.terms)) = mapping at hvars ⊢
-      brute_tail D' hvars allS valid value spin
+      first
+        | brute_tail D' hvars allS valid value spin
+        | brute_tail_labels D' hvars allS valid value spin
     | some b =>
       simp only [pyAttrNumBinaryVariables, pyAttrReverseMapping, hb, ok_bind', pyTryExcept, pyModelItems]
       have hvars : (List.range b.n).mapM (rmLookup b.rm) = D'.vars (ord.iter (keyLabels D'.terms)) := by
         simp [Model.vars, hb]
       generalize b.n = N at hvars ⊢
       generalize b.rm = mapping at hvars ⊢
-      brute_tail D' hvars allS valid value spin
+      first
+        | brute_tail D' hvars allS valid value spin
+        | brute_tail_labels D' hvars allS valid value spin
   unfold solveCore
   by_cases h0 : D.terms.isEmpty = true
   · simp only [pyModelEmpty, h0, if_true]
